@@ -21,10 +21,13 @@ from mc.explore import Exec, Harness, default_verdict
 PROPERTY = 'C20'
 
 
-def emit(n, how, pad):
+def emit(n, how, pad, pause=0):
     lg = simproc.PROCLOG.getLogger('child.mod')
     lg.debug('below the parent level')
     for i in range(n):
+        if pause and i == n - 1:
+            import time
+            time.sleep(pause)       # the child is silent for a while (virtual seconds) before its last record
         lg.warning('rec %d %s', i, 'x' * pad)
     if how == 'raise':
         raise ValueError('child failed', n)
@@ -58,7 +61,7 @@ class LogExec(Exec):
         root = simproc.PROCLOG.getLogger()
         root.addHandler(H())
         root.setLevel(logging.INFO)
-        p = Process(target=emit, args=(cfg['n'], cfg['how'], 0))
+        p = Process(target=emit, args=(cfg['n'], cfg['how'], 0, cfg.get('pause', 0)))
         p.start()
         outcome = None
         try:
@@ -136,6 +139,12 @@ class LogH(Harness):
         # a slow handler in the parent: the child is still flushing seconds after its result has arrived
         out.append(dict(n=5, K=1, how='return', slow_handler=1.0, bound=1 if quick else 2, cap=60000))
         out.append(dict(n=3, K=2, how='raise', slow_handler=1.5, bound=1 if quick else 2, cap=60000))
+        # a child that is silent for a while and then logs and exits at once: a parent-side reader that polls (whatever its
+        # interval: its timeouts may expire at any point here) must not conclude "pipe empty, child gone" in between
+        for pause in (1.0, 3.0):
+            out.append(dict(n=2, K=0, how='return', pause=pause, bound=1 if quick else 2, cap=60000))
+        out.append(dict(n=2, K=0, how='return', pause=3.0, bound=2, cap=100000 if quick else 600000,
+                        sched_opts=dict(timers='all', timer_window=10)))
         # a burst far beyond anything a bounded queue or buffer in between could hold
         out.append(dict(n=1500, K=0, how='return', bound=0, cap=10, sched_opts=dict(max_points=400000, max_timer_fires=100000)))
         return out
